@@ -21,19 +21,19 @@ theorem prefixB_sound {p q : Path} (h : prefixB p q = true) : p <+: q := by
 
 /-- removals a clearing participant may make: anything strictly below `<location>/joblib` -/
 def clearRemovalB : Op → Bool
-  | .unlink p => prefixB pLoc p && decide (p ≠ pLoc)
-  | .rmdir p => prefixB pLoc p && decide (p ≠ pLoc)
+  | .unlink p _ => prefixB pLoc p && decide (p ≠ pLoc)
+  | .rmdir p _ => prefixB pLoc p && decide (p ≠ pLoc)
   | _ => false
 
 theorem clearRemovalB_sound {π : Par} {who : Nat → Prop} {fs : FS} {o : Op} (h : clearRemovalB o = true) :
     Allowed π .clear who fs o := by
   cases o with
-  | unlink p =>
+  | unlink p g =>
     simp only [clearRemovalB, Bool.and_eq_true, decide_eq_true_eq] at h
-    exact .unlinkC p rfl ⟨prefixB_sound h.1, h.2⟩
-  | rmdir p =>
+    exact .unlinkC p g rfl ⟨prefixB_sound h.1, h.2⟩
+  | rmdir p g =>
     simp only [clearRemovalB, Bool.and_eq_true, decide_eq_true_eq] at h
-    exact .rmdirC p rfl ⟨prefixB_sound h.1, h.2⟩
+    exact .rmdirC p g rfl ⟨prefixB_sound h.1, h.2⟩
   | _ => simp [clearRemovalB] at h
 
 /-- apply a list of environment calls, checking each with `ok` -/
